@@ -141,6 +141,7 @@ func cmdCheck(args []string) int {
 	id := args[0]
 	tier := os.Getenv("VERIF_TIER")
 	budget := 0
+	only := ""
 	workers := runtime.NumCPU()
 	if workers > 16 {
 		workers = 16
@@ -156,6 +157,9 @@ func cmdCheck(args []string) int {
 		case "--workers":
 			i++
 			workers, _ = strconv.Atoi(args[i])
+		case "--only":
+			i++
+			only = args[i]
 		}
 	}
 	if tier == "" {
@@ -191,9 +195,15 @@ func cmdCheck(args []string) int {
 	deadline := time.Now().Add(time.Duration(budget) * time.Second)
 
 	// instance order: rotated by the seed (coverage does not depend on it)
-	order := make([]int, ls.N)
-	for i := range order {
-		order[i] = (i + seed) % max(ls.N, 1)
+	order := make([]int, 0, ls.N)
+	for i := 0; i < ls.N; i++ {
+		j := (i + seed) % max(ls.N, 1)
+		if only == "" || strings.Contains(ls.Names[j], only) {
+			order = append(order, j)
+		}
+	}
+	if only != "" {
+		fmt.Printf("debug run: %d of %d instances match %q (evidence of such a run is partial)\n", len(order), ls.N, only)
 	}
 	if workers > ls.N {
 		workers = max(ls.N, 1)
